@@ -490,7 +490,7 @@ theorem detectUnresponsive_ext (s : St) (c : Cfg) (call : Call) (err : ErrKind) 
         split
         · exact Ext.refl s
         · split
-          · exact (Ext.modRef s call.slot (fun r => { r with deCalls := r.deCalls + 1 }) (fun _ => rfl)).trans (refresh_ext _ _)
+          · exact (Ext.modRef s call.slot (fun r => { r with deCalls := satInc r.deCalls }) (fun _ => rfl)).trans (refresh_ext _ _)
           · exact Ext.modRef s _ _ (fun _ => rfl)
 
 /-- removing the (unique) call `c0` lowers exactly the in-flight count of its slot by one -/
